@@ -19,6 +19,7 @@ import (
 
 	"cuelang.org/go/internal"
 	"cuelang.org/go/internal/core/adt"
+	"cuelang.org/go/internal/simhook"
 )
 
 func (r *Runtime) IndexToString(i int64) string {
@@ -71,12 +72,14 @@ func init() {
 }
 
 func getKey(s string) int64 {
+	simhook.Yield("runtime.getKey")
 	mutex.RLock()
 	p, ok := labelMap[s]
 	mutex.RUnlock()
 	if ok {
 		return int64(p)
 	}
+	simhook.Yield("runtime.getKey:upgrade")
 	mutex.Lock()
 	defer mutex.Unlock()
 	p, ok = labelMap[s]
@@ -90,6 +93,7 @@ func getKey(s string) int64 {
 }
 
 func (x *index) IndexToString(i int64) string {
+	simhook.Yield("runtime.IndexToString")
 	mutex.RLock()
 	s := labels[i]
 	mutex.RUnlock()
